@@ -99,7 +99,26 @@ func VHash(variant int) {
 
 func vHashSensitive() {
 	cfg := vHashCfg()
-	which := zzv.Choose("which", 4)
+	which := zzv.Choose("which", 5)
+	if which == 4 {
+		// label boundaries are part of the hash: two different label sets whose names and values
+		// read the same when written one after the other ({team="a"} and {tea="ma"})
+		mkb := func(n, v string) *targetgroup.Group {
+			t := model.LabelSet{model.AddressLabel: "h1:80", model.LabelName(n): model.LabelValue(v)}
+			return &targetgroup.Group{Source: "src", Targets: []model.LabelSet{t}}
+		}
+		r1, err1 := targetsFromGroup(mkb("team", "a"), cfg)
+		r2, err2 := targetsFromGroup(mkb("tea", "ma"), cfg)
+		zzv.Assert("C15.sensitive.noerror", err1 == nil && err2 == nil && len(r1) == 1 && len(r2) == 1)
+		if err1 != nil || err2 != nil || len(r1) != 1 || len(r2) != 1 {
+			return
+		}
+		zzv.Cover("hash.sensitive.boundary")
+		zzv.Assert("C15.hash.sensitive.to.label.boundary", zzv.Feasible(r1[0].ShardTarget.Hash != r2[0].ShardTarget.Hash))
+		zzv.Observe("sensitive", "boundary")
+		zzv.Cover("hash.end")
+		return
+	}
 	if which == 3 {
 		// the URL is part of the hash with its whole query: two jobs whose params differ only in
 		// the second value of a multi-valued parameter (which no label carries)
